@@ -1,5 +1,6 @@
 import ModVerif.Drv.MainLoop
 import ModVerif.Drv.Semver
+import ModVerif.Drv.GenSemver
 open ModVerif.Drv
 
-def main : IO Unit := runMain [("semver", Semver.handle)]
+def main : IO Unit := runMain [("semver", Semver.handle), ("gsemver", GenSemver.handle)]
